@@ -12,7 +12,7 @@ from vlib.strategies import txs, chunk_policy, rlp_receipt, byte_string_1_33, U3
 
 ID = "C01"
 LEVEL = "exploration"
-RULE = ("histories of 1..3 sign requests on one manager and device; each request: Hypothesis-generated sign requests (6 key paths, v5/v1, tx ASTs with every push "
+RULE = ("histories of 1..3 sign requests on one manager and device, with up to two other commands (queries, advancing, other sign requests, refused requests) served in between; each request: Hypothesis-generated sign requests (6 key paths, v5/v1, tx ASTs with every push "
         "encoding, legacy/segwit, receipts, proofs up to 255x255) x device chunk policies and "
         "deviations; non-trivial = authorized request whose BTC payload spans >= 2 chunks, or "
         "any device deviation / malformed signature; distinct by fingerprint of the whole case")
@@ -24,7 +24,7 @@ ASSUMPTIONS = [
 REQUIRED_LABELS = {
     "quick": ["auth:legacy", "auth:segwit", "unauth", "v1", "dev:early", "dev:late", "dev:op",
               "sig:bad", "multi-chunk-btc", "policy:all-1", "success", "history", "bip144",
-              "related-to-previous", "hex:spaced", "hex:upper"],
+              "related-to-previous", "hex:spaced", "hex:upper", "interlude"],
     "thorough": ["auth:legacy", "auth:segwit", "unauth", "v1", "dev:early", "dev:late",
                  "dev:op", "sig:bad", "multi-chunk-btc", "policy:all-1", "success", "history",
                  "bip144",
@@ -95,6 +95,8 @@ def cases(draw, tier):
             elif what == "path":
                 nxt["path"] = [x for x in refs.AUTH_PATHS if x != prev["path"]][0]
             nxt["related"] = what
+        # other commands served by the same manager between two sign requests
+        nxt["interlude"] = draw(st.lists(st.sampled_from(mw.INTERLUDES), max_size=2))
         nxt["v1"] = first["v1"] and "tx" not in nxt
         if nxt["v1"] and nxt["path"] not in refs.UNAUTH_PATHS:
             nxt["v1"] = False
@@ -259,6 +261,12 @@ def run_case(h):
     if len(seq) >= 2:
         labels.append("history")
     for c in seq:
+        if c.get("interlude") and c is not seq[0]:
+            saved = (w.sign_dev, w.sign_answer_op)
+            w.sign_dev, w.sign_answer_op = {}, None
+            labels.extend(mw.interlude(p, w, c["interlude"], seq[0]["v1"]))
+            w.sign_dev, w.sign_answer_op = saved
+            labels.append("interlude")
         out = run_one(c, w, p)
         labels.extend(out.labels)
         nt = nt or out.nontrivial
